@@ -8,7 +8,7 @@ use crate::c15::{new_client, Mk};
 use crate::util::{hex, Opts, Rng, QA};
 use crate::world::*;
 use mls_rs::client_builder::MlsConfig;
-use mls_rs::{CipherSuite, CipherSuiteProvider, CryptoProvider, MlsMessage};
+use mls_rs::{CipherSuite, CipherSuiteProvider, CryptoProvider, Group, MlsMessage};
 use std::collections::BTreeSet;
 
 struct Out {
@@ -288,6 +288,101 @@ fn scenario<C: MlsConfig>(rng: &mut Rng, mk: Mk<C>, out: &mut Out) {
     }
 }
 
+
+/// Cross-group resumption PSK (RFC 9420 section 8.4, usage `application`): two members share two groups on the same clients /
+/// storage; a commit in group 1 injects the resumption secret of a past epoch of group 2 (proposal built from its wire encoding,
+/// committed through `raw_proposal`).  Both members hold that epoch of group 2 in storage, so both must derive the same PSK and
+/// the receiver must accept — whatever epochs of group 1 itself are still pending (unwritten) on either side.
+fn cross_group<C: MlsConfig>(rng: &mut Rng, mk: Mk<C>, out: &mut Out) {
+    use mls_rs::mls_rs_codec::MlsDecode;
+    let mut w: World<C> = new_world(Default::default(), "/tmp/vharness-scratch-c18");
+    for i in 0..2 {
+        new_client(&mut w, mk, &format!("x{i}"), false, 5);
+    }
+    // group 1 lives in the world, group 2 beside it (same clients, same storage)
+    let mut mkgroup = |w: &mut World<C>| -> Option<(Group<C>, Group<C>)> {
+        let mut ga = w.members[0].client.create_group(Default::default(), Default::default(), None).ok()?;
+        let kp = w.members[1].client.generate_key_package_message(Default::default(), Default::default(), None).ok()?;
+        let o = ga.commit_builder().add_member(kp).ok()?.build().ok()?;
+        ga.apply_pending_commit().ok()?;
+        let (gb, _) = w.members[1].client.join_group(None, o.welcome_messages.first()?, None).ok()?;
+        Some((ga, gb))
+    };
+    let Some((g1a, g1b)) = mkgroup(&mut w) else {
+        out.fails.push("cross-group setup".into());
+        return;
+    };
+    let Some((mut g2a, mut g2b)) = mkgroup(&mut w) else {
+        out.fails.push("cross-group setup".into());
+        return;
+    };
+    w.members[0].group = Some(g1a);
+    w.members[1].group = Some(g1b);
+    // group 2 advances and is written by both
+    let k2 = rng.range(3, 6);
+    for _ in 0..k2 {
+        let Ok(o) = g2a.commit(vec![]) else { return };
+        let _ = g2a.apply_pending_commit();
+        let _ = g2b.process_incoming_message(o.commit_message);
+    }
+    let _ = g2a.write_to_storage();
+    let _ = g2b.write_to_storage();
+    // group 1 advances; each side writes or not (pending epochs of group 1 with the same numbers as stored epochs of group 2)
+    let k1 = rng.range(2, 7);
+    let a_writes = rng.chance(1, 3);
+    let b_writes = rng.chance(1, 2);
+    for _ in 0..k1 {
+        let (_, o) = w.with_group(0, |g| g.commit(vec![]));
+        let Some(o) = o else { return };
+        w.with_group(0, |g| g.apply_pending_commit());
+        w.with_group(1, |g| g.process_incoming_message(o.commit_message.clone()));
+        if a_writes {
+            w.with_group(0, |g| g.write_to_storage());
+        }
+        if b_writes {
+            w.with_group(1, |g| g.write_to_storage());
+        }
+    }
+    let e2 = g2a.current_epoch();
+    let e = rng.range(e2.saturating_sub(4).max(1), e2 - 1); // a past epoch of group 2 inside the retention window
+    let gid2 = g2a.group_id().to_vec();
+    let committer = rng.below(2) as usize;
+    let receiver = 1 - committer;
+    // Proposal::Psk { Resumption { usage application, group 2, epoch e }, nonce }
+    let nonce = rng.bytes(32);
+    let mut bytes = vec![0u8, 4, 2, 1];
+    bytes.extend(crate::c12::varint(gid2.len() as u64));
+    bytes.extend(&gid2);
+    bytes.extend(e.to_be_bytes());
+    bytes.extend(crate::c12::varint(nonce.len() as u64));
+    bytes.extend(&nonce);
+    let Ok(prop) = mls_rs::group::proposal::Proposal::mls_decode(&mut &bytes[..]) else {
+        out.fails.push("cross-group: cannot build the PSK proposal".into());
+        return;
+    };
+    out.cases += 1;
+    let (r, o) = w.with_group(committer, |g| g.commit_builder().raw_proposal(prop).build());
+    let Some(o) = o else {
+        out.fails.push(format!("cross-group: member {committer} holds epoch {e} of the other group in storage but cannot build the commit: {}", r.s()));
+        return;
+    };
+    w.with_group(committer, |g| g.apply_pending_commit());
+    let (r, _) = w.with_group(receiver, |g| g.process_incoming_message(o.commit_message.clone()));
+    out.verdicts += 1;
+    let k1now = w.group(committer).current_epoch();
+    if !r.ok() {
+        out.fails.push(format!(
+            "cross-group resumption PSK (epoch {e} of another group that both members store): member {receiver} rejects the commit of member {committer}: {} (group 1 now at epoch {k1now}, committer writes group 1 = {}, receiver writes group 1 = {})",
+            r.s(),
+            if committer == 0 { a_writes } else { b_writes },
+            if receiver == 0 { a_writes } else { b_writes }
+        ));
+    } else if w.group(0).epoch_authenticator().unwrap().as_bytes() != w.group(1).epoch_authenticator().unwrap().as_bytes() {
+        out.fails.push("cross-group resumption PSK: members accepted but disagree".into());
+    }
+    out.cover.insert(format!("cross-group:pending-collision={}", (e < k1now) as u8));
+}
+
 /// value level: the PSK secret under variations of value / id / nonce / order / count
 fn value_rows(rng: &mut Rng, qa: &mut QA, n: u64) -> Vec<String> {
     let cs = mls_rs_crypto_rustcrypto::RustCryptoProvider::default().cipher_suite_provider(CipherSuite::from(1u16)).unwrap();
@@ -351,9 +446,12 @@ pub fn run(o: &Opts) -> i32 {
     let mut out = Out { fails: vec![], cases: 0, verdicts: 0, cover: Default::default(), samples: vec![] };
     let mk = |s: &Setup, hd: &Handles, id, sk| mk_client(s, hd, id, sk);
     out.fails.extend(value_rows(&mut rng, &mut qa, if o.thorough() { 3000 } else { 300 }));
-    for _ in 0..n {
+    for k in 0..n {
         let mut r = rng.fork();
         scenario(&mut r, &mk, &mut out);
+        if k % 4 == 0 {
+            cross_group(&mut r, &mk, &mut out);
+        }
     }
     let rows = qa.finish();
     println!("rows {rows}");
